@@ -218,7 +218,7 @@ def topoOf (st : St) : Topo where
     | none => none
   copies g := if st.fans.any fun f => f.g == g && f.sync then (st.msgs.filter fun m => m.grp == g).map (·.id) else []
 
-def cfgOf (st : St) : Cfg := let t := topoOf st; { kind := kindFn st.msgs, pair := t.pair, copies := t.copies }
+def cfgOf (st : St) : Cfg := let t := topoOf st; { kind := kindFn st.msgs, pair := t.pair, copies := t.copies, grp := t.grp }
 
 /-- Eager invisible steps: release an asynchronous call, hand the head of the queue to the dispatcher. -/
 def settle (kind : Nat → Kind) (s : State) : Nat → State
